@@ -699,14 +699,17 @@ static int write_container_start(cif_container_tp *block, void *context) {
     int result = cif_container_get_code(block, &code);
     const char *this_header_type = header_type[(CONTEXT_DEPTH(context) == 0) ? 0 : 1];
 
-    if ((result == CIF_OK) && IS_CIF1(context)) {
-        result = cif_validate_cif11_characters(code, NULL);
-    }
     if (result == CIF_OK) {
-        result = ((u_fprintf(CONTEXT_UFILE(context), this_header_type, code) > 7) ? CIF_TRAVERSE_CONTINUE : CIF_ERROR);
-        SET_LAST_COLUMN(context, 0);
-        if (result == CIF_TRAVERSE_CONTINUE) {
-            CONTEXT_INC_DEPTH(context, 1);
+        if (IS_CIF1(context)) {
+            result = cif_validate_cif11_characters(code, NULL);
+        }
+        if (result == CIF_OK) {
+            result = ((u_fprintf(CONTEXT_UFILE(context), this_header_type, code) > 7)
+                    ? CIF_TRAVERSE_CONTINUE : CIF_ERROR);
+            SET_LAST_COLUMN(context, 0);
+            if (result == CIF_TRAVERSE_CONTINUE) {
+                CONTEXT_INC_DEPTH(context, 1);
+            }
         }
         free(code);
     }
